@@ -6,8 +6,12 @@ package vrt
 
 import (
 	"fmt"
+	"os"
 	"sort"
+	"strconv"
+	"strings"
 	"sync"
+	"sync/atomic"
 )
 
 // Sched is implemented by the goroutine-schedule explorer (harness/internal/gox).
@@ -115,8 +119,20 @@ func Keys[K comparable, V any](m map[K]V, site string) []K {
 	for k := range m {
 		ks = append(ks, k)
 	}
-	if !on() || len(ks) < 2 {
+	if len(ks) < 2 {
 		return ks
+	}
+	if !on() {
+		if !procOrder() {
+			return ks
+		}
+		sort.Slice(ks, func(i, j int) bool { return fmt.Sprint(ks[i]) < fmt.Sprint(ks[j]) })
+		perm := procPerm(len(ks), site)
+		out := make([]K, len(ks))
+		for i, p := range perm {
+			out[i] = ks[p]
+		}
+		return out
 	}
 	sort.Slice(ks, func(i, j int) bool { return fmt.Sprint(ks[i]) < fmt.Sprint(ks[j]) })
 	perm := S.MapOrder(len(ks), site)
@@ -126,6 +142,86 @@ func Keys[K comparable, V any](m map[K]V, site string) []K {
 	out := make([]K, len(ks))
 	for i, p := range perm {
 		out[i] = ks[p]
+	}
+	return out
+}
+
+// Process mode (the real CLI as a child process, no scheduler): with VERIF_MAPORDER set, every map-range
+// site visits its keys in sorted order, except that the j-th call (counting calls with two or more keys, from
+// 1) uses the p-th permutation in lexicographic order for each "j:p" in the comma separated value.
+// VERIF_MAPLOG=<file> appends "<j> <site> <n>" for every such call, so the harness can enumerate (j, p).
+var (
+	procOnce  sync.Once
+	procOn    bool
+	procDev   map[int64]int
+	procLog   *os.File
+	procCalls int64
+	procRev   bool // VERIF_MAPORDER=rev: every map range visits its keys in descending order
+)
+
+func procOrder() bool {
+	procOnce.Do(func() {
+		v, ok := os.LookupEnv("VERIF_MAPORDER")
+		if !ok {
+			return
+		}
+		procOn = true
+		procDev = map[int64]int{}
+		procRev = v == "rev"
+		for _, f := range strings.Split(v, ",") {
+			jp := strings.SplitN(f, ":", 2)
+			if len(jp) != 2 {
+				continue
+			}
+			j, e1 := strconv.ParseInt(jp[0], 10, 64)
+			p, e2 := strconv.Atoi(jp[1])
+			if e1 == nil && e2 == nil {
+				procDev[j] = p
+			}
+		}
+		if lf := os.Getenv("VERIF_MAPLOG"); lf != "" {
+			procLog, _ = os.OpenFile(lf, os.O_CREATE|os.O_WRONLY|os.O_APPEND, 0644)
+		}
+	})
+	return procOn
+}
+
+func procPerm(n int, site string) []int {
+	j := atomic.AddInt64(&procCalls, 1)
+	if procLog != nil {
+		fmt.Fprintf(procLog, "%d %s %d\n", j, site, n)
+	}
+	if procRev {
+		out := make([]int, n)
+		for i := range out {
+			out[i] = n - 1 - i
+		}
+		return out
+	}
+	return NthPerm(n, procDev[j])
+}
+
+// NthPerm is the p-th permutation of 0..n-1 in lexicographic order (p taken modulo n!, n capped at 12).
+func NthPerm(n, p int) []int {
+	rest := make([]int, n)
+	for i := range rest {
+		rest[i] = i
+	}
+	if p <= 0 || n > 12 {
+		return rest
+	}
+	fact := 1
+	for i := 2; i <= n; i++ {
+		fact *= i
+	}
+	p %= fact
+	out := make([]int, 0, n)
+	for i := n; i >= 1; i-- {
+		fact /= i
+		q := p / fact
+		p %= fact
+		out = append(out, rest[q])
+		rest = append(rest[:q], rest[q+1:]...)
 	}
 	return out
 }
